@@ -1,0 +1,177 @@
+//go:build verif
+
+package frame
+
+// Contracts for the verification machinery in /verif (comment-only; see /verif/DESIGN.md).
+//
+// C04 / C08. Stream model: see /verif/engine/contracts/io.contracts. A decoder is entered with a
+// message that is (or is converted to) a reader r positioned at the start of a frame; it must emit
+// exactly one HandleRead(F) with a frame reader F, or raise an exception.
+//   complete_or_error: F delivers all bytes the header announces, or a consumer reading F to its
+//                      end observes a non-EOF error (a truncated frame is never delivered as a message)
+//   respects_max / bounded: what is buffered or announced never exceeds the configured maximum
+
+//@ property C04 C08
+//@ spec func isReaderMsg(m netty.Message) bool = cvReader(m) && rwf(m)
+
+// ---------------------------------------------------------------------------
+// fixed length
+//@ func FixedLengthCodec
+//@   panics_iff length <= 0
+//@   ensures is(result, *fixedLengthCodec) && as(result, *fixedLengthCodec) != nil && as(result, *fixedLengthCodec).length == length
+//@ field fixedLengthCodec.length immutable FixedLengthCodec
+//@ func (*fixedLengthCodec).HandleRead
+//@   requires f != nil && ctx != nil && f.length > 0 && isReaderMsg(message)
+//@   may_panic true
+//@   ensures one_frame: nemitted() == 2 && evis(0, "utils.MustToReader") && evis(1, "InboundContext.HandleRead") && evrecv(1) == ctx && impl(evarg(1, 0), io.Reader)
+//@   ensures frame_limits: at(1, lsrc(evarg(1, 0)) == message && llim(evarg(1, 0)) == f.length && rpos(evarg(1, 0)) == 0 && rpos(message) == old(rpos(message)))
+//@   ensures fixed_size: at(1, ravail(evarg(1, 0)) <= f.length)
+//@   ensures complete_or_error: at(1, ravail(evarg(1, 0)) == f.length || rbad(evarg(1, 0)))
+//@   ensures content: at(1, forall(i, 0, ravail(evarg(1, 0)), rdata(evarg(1, 0))[i] == rdata(message)[rpos(message) + i]))
+//@ func (*fixedLengthCodec).HandleWrite
+//@   requires ctx != nil
+//@   may_panic true
+//@   ensures forwards: nemitted() == 1 && evis(0, "OutboundContext.HandleWrite") && evrecv(0) == ctx && evarg(0, 0) == message
+
+// ---------------------------------------------------------------------------
+// variable length (one transport read = one message)
+//@ func VariableLengthCodec
+//@   panics_iff maxReadLength <= 0
+//@   requires maxReadLength <= 1<<47
+//@   ensures is(result, *variableLengthCodec) && as(result, *variableLengthCodec) != nil && as(result, *variableLengthCodec).maxReadLength == maxReadLength && len(as(result, *variableLengthCodec).buffer) == maxReadLength
+//@ field variableLengthCodec.maxReadLength immutable VariableLengthCodec
+//@ field variableLengthCodec.buffer immutable VariableLengthCodec
+//@ func (*variableLengthCodec).HandleRead
+//@   requires v != nil && ctx != nil && v.maxReadLength > 0 && len(v.buffer) == v.maxReadLength && isReaderMsg(message)
+//@   may_panic true
+//@   ensures one_frame: nemitted() == 2 && evis(0, "utils.MustToReader") && evis(1, "InboundContext.HandleRead") && evrecv(1) == ctx && is(evarg(1, 0), []byte)
+//@   ensures bounded: len(as(evarg(1, 0), []byte)) <= old(v.maxReadLength) && at(1, rpos(message)) == old(rpos(message)) + len(as(evarg(1, 0), []byte))
+//@   ensures content: at(1, seqeq(content(as(evarg(1, 0), []byte)), subseq(rdata(message), old(rpos(message)), len(as(evarg(1, 0), []byte)))))
+//@   ensures_panic nothing: count("InboundContext.HandleRead") == 0 || nemitted() == 2
+//@ func (*variableLengthCodec).HandleWrite
+//@   requires ctx != nil
+//@   may_panic true
+//@   ensures forwards: nemitted() == 1 && evis(0, "OutboundContext.HandleWrite") && evrecv(0) == ctx && evarg(0, 0) == message
+
+// ---------------------------------------------------------------------------
+// varint length field
+//@ func VarintLengthFieldCodec
+//@   panics_iff maxFrameLength <= 0
+//@   ensures is(result, *varintLengthFieldCodec) && as(result, *varintLengthFieldCodec) != nil && as(result, *varintLengthFieldCodec).maxFrameLength == maxFrameLength
+//@ field varintLengthFieldCodec.maxFrameLength immutable VarintLengthFieldCodec
+//@ func (*varintLengthFieldCodec).HandleRead
+//@   mode bv
+//@   requires v != nil && ctx != nil && v.maxFrameLength > 0 && isReaderMsg(message)
+//@   may_panic true
+//@   ensures one_frame: nemitted() == 2 && evis(0, "utils.MustToReader") && evis(1, "InboundContext.HandleRead") && evrecv(1) == ctx && impl(evarg(1, 0), io.Reader)
+//@   ensures header: at(1, rpos(message) == old(rpos(message)) + uvlen(old(rcontent(message))) && rpos(message) <= old(rpos(message)) + 10)
+//@   ensures frame_limits: at(1, lsrc(evarg(1, 0)) == message && uint64(llim(evarg(1, 0))) == uvval(old(rcontent(message))) && rpos(evarg(1, 0)) == 0)
+//@   ensures respects_max: at(1, llim(evarg(1, 0)) >= 0 && llim(evarg(1, 0)) <= v.maxFrameLength && ravail(evarg(1, 0)) <= v.maxFrameLength)
+//@   ensures complete_or_error: at(1, ravail(evarg(1, 0)) == llim(evarg(1, 0)) || rbad(evarg(1, 0)))
+//@   ensures content: at(1, forall(i, 0, ravail(evarg(1, 0)), rdata(evarg(1, 0))[i] == rdata(message)[rpos(message) + i]))
+//@   ensures_panic nothing: count("InboundContext.HandleRead") == 0 || nemitted() == 2
+//@ func (*varintLengthFieldCodec).HandleWrite
+//@   mode bv
+//@   requires v != nil && ctx != nil && implies(tbStable(message) || (tbOther(message) && impl(message, io.Reader)), rwf(message))
+//@   may_panic true
+//@   ensures frame: nemitted() == 2 && evis(0, "utils.MustToBytes") && evarg(0, 0) == message && evis(1, "OutboundContext.HandleWrite") && evrecv(1) == ctx && is(evarg(1, 0), [][]byte) && len(as(evarg(1, 0), [][]byte)) == 2
+//@   ensures body: at(1, sameslice(as(evarg(1, 0), [][]byte)[1], evres(0, 0)))
+//@   ensures header_agrees: at(1, uvval(content(as(evarg(1, 0), [][]byte)[0])) == uint64(len(evres(0, 0))) && uvlen(content(as(evarg(1, 0), [][]byte)[0])) == len(as(evarg(1, 0), [][]byte)[0]))
+//@   ensures respects_max: len(evres(0, 0)) <= old(v.maxFrameLength)
+//@   ensures_panic nothing: count("OutboundContext.HandleWrite") == 0 || nemitted() == 2
+
+// ---------------------------------------------------------------------------
+// length field
+//   field(order, w, s): value of the w-byte length field s (w = 1: the byte itself)
+//@ spec func field(order binary.ByteOrder, w int, s seq) uint64 = ite(w == 1, uint64(s[0]), fieldval(order, w, s))
+//@ spec func okWidth(w int) bool = w == 1 || w == 2 || w == 4 || w == 8
+//@ spec func maskOf(w int) uint64 = ite(w == 1, 255, ite(w == 2, 65535, ite(w == 4, 4294967295, 18446744073709551615)))
+//@ func unpackFieldLength
+//@   event
+//@   mode bv
+//@   requires byteOrder != nil && okWidth(fieldLen) && len(buff) >= fieldLen
+//@   ensures value: uint64(frameLength) == field(byteOrder, fieldLen, content(buff))
+//@   ensures range: implies(fieldLen < 8, frameLength >= 0 && uint64(frameLength) <= maskOf(fieldLen))
+//@ func packFieldLength
+//@   mode bv
+//@   requires byteOrder != nil && okWidth(fieldLen)
+//@   ensures shape: len(result) == fieldLen && fresh(result)
+//@   ensures value: field(byteOrder, fieldLen, content(result)) == uint64(dataLen) & maskOf(fieldLen)
+
+//@ spec func linv(l *lengthFieldCodec) bool = l != nil && l.byteOrder != nil && l.maxFrameLength > 0 && l.lengthFieldOffset >= 0 && l.initialBytesToStrip >= 0 && okWidth(l.lengthFieldLength) && l.lengthFieldOffset <= l.maxFrameLength - l.lengthFieldLength && l.maxFrameLength <= 1<<47 && l.lengthAdjustment >= -(1<<47) && l.lengthAdjustment <= 1<<47
+//@ spec func lfeo(l *lengthFieldCodec) int = l.lengthFieldOffset + l.lengthFieldLength
+//@ spec func lfFL(l *lengthFieldCodec, s seq) int64 = int64(field(l.byteOrder, l.lengthFieldLength, subseq(s, l.lengthFieldOffset, l.lengthFieldLength))) + int64(l.lengthAdjustment + lfeo(l))
+//@ func LengthFieldCodec
+//@   mode bv
+//@   requires byteOrder != nil && maxFrameLength <= 1<<47 && lengthAdjustment >= -(1<<47) && lengthAdjustment <= 1<<47
+//@   panics_iff maxFrameLength <= 0 || lengthFieldOffset < 0 || initialBytesToStrip < 0 || !okWidth(lengthFieldLength) || lengthFieldOffset > maxFrameLength-lengthFieldLength
+//@   ensures is(result, *lengthFieldCodec) && linv(as(result, *lengthFieldCodec))
+//@   ensures config: as(result, *lengthFieldCodec).byteOrder == byteOrder && as(result, *lengthFieldCodec).maxFrameLength == maxFrameLength && as(result, *lengthFieldCodec).lengthFieldOffset == lengthFieldOffset && as(result, *lengthFieldCodec).lengthFieldLength == lengthFieldLength && as(result, *lengthFieldCodec).lengthAdjustment == lengthAdjustment && as(result, *lengthFieldCodec).initialBytesToStrip == initialBytesToStrip
+//@ spec func lfRawFL(l *lengthFieldCodec, raw int64) int64 = raw + int64(l.lengthAdjustment + lfeo(l))
+//@ func (*lengthFieldCodec).HandleRead
+//@   mode intwrap
+//@   requires linv(l) && ctx != nil && isReaderMsg(message)
+//@   may_panic true
+//@   ensures one_frame: nemitted() == 3 && evis(0, "utils.MustToReader") && evis(1, "frame.unpackFieldLength") && evis(2, "InboundContext.HandleRead") && evrecv(2) == ctx && impl(evarg(2, 0), io.Reader)
+//@   ensures header_consumed: at(2, rpos(message) == old(rpos(message)) + lfeo(l) && old(ravail(message)) >= lfeo(l))
+//@   ensures parsed_from_header: at(1, evarg(1, 0) == l.byteOrder && evarg(1, 1) == l.lengthFieldLength && seqeq(content(evarg(1, 2)), subseq(old(rcontent(message)), l.lengthFieldOffset, l.lengthFieldLength)))
+//@   ensures length_checked: at(2, evres(1, 0) >= 0 && lfRawFL(l, evres(1, 0)) >= int64(lfeo(l)) && lfRawFL(l, evres(1, 0)) <= int64(l.maxFrameLength) && int64(l.initialBytesToStrip) <= lfRawFL(l, evres(1, 0)))
+//@   ensures respects_max: at(2, int64(ravail(evarg(2, 0))) <= lfRawFL(l, evres(1, 0)) - int64(l.initialBytesToStrip) && ravail(evarg(2, 0)) <= l.maxFrameLength && ravail(evarg(2, 0)) >= 0)
+//@   ensures complete_or_error: at(2, int64(ravail(evarg(2, 0))) == lfRawFL(l, evres(1, 0)) - int64(l.initialBytesToStrip) || rbad(evarg(2, 0)))
+//@   ensures_panic nothing: count("InboundContext.HandleRead") == 0 || nemitted() == 3
+
+//@ spec func pinv(l *lengthFieldPrepender) bool = l != nil && l.byteOrder != nil && okWidth(l.lengthFieldLength)
+//@ func LengthFieldPrepender
+//@   mode bv
+//@   requires byteOrder != nil
+//@   panics_iff !okWidth(lengthFieldLength)
+//@   ensures is(result, *lengthFieldPrepender) && pinv(as(result, *lengthFieldPrepender))
+//@   ensures config: as(result, *lengthFieldPrepender).byteOrder == byteOrder && as(result, *lengthFieldPrepender).lengthFieldLength == lengthFieldLength && as(result, *lengthFieldPrepender).lengthAdjustment == lengthAdjustment && as(result, *lengthFieldPrepender).lengthIncludesLengthFieldLength == lengthIncludesLengthFieldLength
+//@ spec func plen(l *lengthFieldPrepender, n int) int = n + l.lengthAdjustment + ite(l.lengthIncludesLengthFieldLength, l.lengthFieldLength, 0)
+//@ func (*lengthFieldPrepender).HandleWrite
+//@   mode bv
+//@   requires pinv(l) && ctx != nil && implies(tbStable(message) || (tbOther(message) && impl(message, io.Reader)), rwf(message))
+//@   may_panic true
+//@   ensures frame: nemitted() == 2 && evis(0, "utils.MustToBytes") && evarg(0, 0) == message && evis(1, "OutboundContext.HandleWrite") && evrecv(1) == ctx && is(evarg(1, 0), [][]byte) && len(as(evarg(1, 0), [][]byte)) == 2
+//@   ensures body: at(1, sameslice(as(evarg(1, 0), [][]byte)[1], evres(0, 0)))
+//@   ensures header_width: at(1, len(as(evarg(1, 0), [][]byte)[0])) == old(l.lengthFieldLength)
+//@   ensures header_agrees: at(1, int64(field(l.byteOrder, l.lengthFieldLength, content(as(evarg(1, 0), [][]byte)[0]))) == int64(plen(l, len(evres(0, 0)))) && plen(l, len(evres(0, 0))) >= 0)
+//@   ensures_panic nothing: count("OutboundContext.HandleWrite") == 0 || nemitted() == 2
+
+// ---------------------------------------------------------------------------
+// delimiter
+//@ spec func dinv(d *delimiterCodec) bool = d != nil && d.maxFrameLength > 0 && d.maxFrameLength <= 1<<47 && len(d.delimiter) > 0
+//@ func DelimiterCodec
+//@   requires maxFrameLength <= 1<<47
+//@   panics_iff maxFrameLength <= 0 || len(delimiter) <= 0
+//@   ensures is(result, *delimiterCodec) && dinv(as(result, *delimiterCodec)) && as(result, *delimiterCodec).maxFrameLength == maxFrameLength && as(result, *delimiterCodec).stripDelimiter == stripDelimiter
+//@   ensures delimiter: seqeq(content(as(result, *delimiterCodec).delimiter), content(delimiter))
+//@ func (*delimiterCodec).HandleRead
+//@   requires dinv(d) && ctx != nil && isReaderMsg(message)
+//@   may_panic true
+//@   loop 0 modifies elems(uint8), ghost rpos
+//@   loop 0 invariant buffered: len(readBuff) == rpos(message) - old(rpos(message)) && len(readBuff) <= d.maxFrameLength && rwf(message)
+//@   loop 0 invariant own: fresh(readBuff) && arrof(readBuff) != arrof(tempBuff) && len(tempBuff) == 1 && fresh(tempBuff)
+//@   loop 0 invariant content: seqeq(content(readBuff), subseq(rdata(message), old(rpos(message)), len(readBuff)))
+//@   loop 0 decreases d.maxFrameLength - len(readBuff)
+//@   ensures one_frame: nemitted() == 2 && evis(0, "utils.MustToReader") && evis(1, "InboundContext.HandleRead") && evrecv(1) == ctx && impl(evarg(1, 0), io.Reader)
+//@   ensures bounded: at(1, rpos(message) - old(rpos(message)) <= d.maxFrameLength && rpos(message) - old(rpos(message)) >= len(d.delimiter) && ravail(evarg(1, 0)) <= d.maxFrameLength)
+//@   ensures ends_with_delimiter: at(1, forall(k, rpos(message) - old(rpos(message)) - len(d.delimiter), rpos(message) - old(rpos(message)), d.delimiter[k - (rpos(message) - old(rpos(message)) - len(d.delimiter))] == rdata(message)[old(rpos(message)) + k]))
+//@   ensures stripped: at(1, ravail(evarg(1, 0)) == rpos(message) - old(rpos(message)) - ite(d.stripDelimiter, len(d.delimiter), 0) && !rbad(evarg(1, 0)))
+//@   ensures content: at(1, seqeq(rcontent(evarg(1, 0)), subseq(rdata(message), old(rpos(message)), ravail(evarg(1, 0)))))
+//@   ensures_panic nothing: count("InboundContext.HandleRead") == 0 || nemitted() == 2
+//@ func (*delimiterCodec).HandleWrite
+//@   requires dinv(d) && ctx != nil
+//@   may_panic true
+//@   ensures bytes_case: implies(is(message, []byte), nemitted() == 1 && evis(0, "OutboundContext.HandleWrite") && evrecv(0) == ctx && is(evarg(0, 0), [][]byte) && len(as(evarg(0, 0), [][]byte)) == 2 && at(0, sameslice(as(evarg(0, 0), [][]byte)[0], as(message, []byte)) && sameslice(as(evarg(0, 0), [][]byte)[1], d.delimiter)))
+//@   ensures other_case: implies(!is(message, []byte), nemitted() == 2 && evis(0, "utils.MustToReader") && evarg(0, 0) == message && evis(1, "OutboundContext.HandleWrite") && evrecv(1) == ctx && impl(evarg(1, 0), io.Reader))
+//@   ensures other_len: implies(!is(message, []byte), at(1, rpos(evarg(1, 0)) == 0 && ravail(evarg(1, 0)) == ravail(evres(0, 0)) + len(d.delimiter)))
+//@   ensures other_delim: implies(!is(message, []byte), at(1, forall(i, 0, len(d.delimiter), rdata(evarg(1, 0))[ravail(evres(0, 0)) + i] == d.delimiter[i])))
+//@   ensures other_body: implies(!is(message, []byte), at(1, forall(i, 0, ravail(evres(0, 0)), rdata(evarg(1, 0))[i] == rdata(evres(0, 0))[rpos(evres(0, 0)) + i])))
+
+// ---------------------------------------------------------------------------
+// packet (datagram transports): pass-through
+//@ func (packetCodec).HandleWrite
+//@   requires ctx != nil
+//@   may_panic true
+//@   ensures forwards: nemitted() == 1 && evis(0, "OutboundContext.HandleWrite") && evrecv(0) == ctx && evarg(0, 0) == message
